@@ -154,3 +154,11 @@ def catchalgebra(r):
         r["add"] = r["add"][:-1]
         return r
     return None
+
+
+def slope(r):
+    for c, isn in enumerate(r.get("nodata", [])):
+        if not isn:
+            r["drop"][c] += 1
+            return r
+    return None
